@@ -119,6 +119,29 @@ pub fn run(ctx: &Ctx) -> Outcome {
     for a in accs {
         acc.merge(a);
     }
+    // every Unicode scalar value, in the contexts where the tokenizer classifies characters
+    // (between tokens, inside identifiers, after `$`, `:`, `#`, `/`, inside comments and attributes)
+    let contexts: [(&str, &str); 10] = [("", ""), ("a", "b"), ("start ", "A"), ("$", ""), ("$T", ""), (":", ":"), ("#", "]"), ("#[", "]"), ("//", "\n_"), ("/", "/")];
+    let char_accs: Vec<Acc> = (0u32..0x11_0000)
+        .into_par_iter()
+        .step_by(1)
+        .fold(Acc::default, |mut acc, cp| {
+            if let Some(c) = char::from_u32(cp) {
+                for (pre, post) in contexts.iter() {
+                    let s = format!("{pre}{c}{post}");
+                    acc.inc("strings");
+                    acc.inc("single-character probes (every Unicode scalar value x 10 contexts)");
+                    if let Some((what, e, o)) = check_source(&s, &mut acc) {
+                        acc.finding(finding(&s, what, e, o));
+                    }
+                }
+            }
+            acc
+        })
+        .collect();
+    for a in char_accs {
+        acc.merge(a);
+    }
     // corpus: the repository's own grammar files and a few hand-picked maximal-munch / attribute cases
     let mut corpus: Vec<String> = crate::corpus::repo_sources().into_iter().map(|(_, s)| s).collect();
     for s in [":::", "::::", "a:::b", "$a$b", "#[a(b[c{d}e]f)g]", "#[(]]", "start A\n#[(]]", "#[doc = \"é\"]", "#[€]struct A", "#[a", "#[a\n]", "#[(\n", "$start", "$_", "$_a", "$enumx", "// é€😀\r\nstart", "a\u{85}b", "a\u{a0}b", "a\u{feff}b", "\u{2028}start", "x/", "x//", "x/ /"] {
@@ -138,7 +161,7 @@ pub fn run(ctx: &Ctx) -> Outcome {
     let n = acc.get("strings");
     out.cov("evaluations", json!(n));
     out.cov("distinct_nontrivial", json!(n.saturating_sub(1)));
-    out.cov("rule", json!(format!("all strings of at most {l} symbols over the 28-symbol alphabet {:?} (one representative per lexer character class and UTF-8 length, two reserved words), plus the repository's grammar files and hand-picked cases; all strings are distinct; non-trivial = non-empty", ALPHABET)));
+    out.cov("rule", json!(format!("all strings of at most {l} symbols over the 28-symbol alphabet {:?} (one representative per lexer character class and UTF-8 length, two reserved words); every Unicode scalar value in 10 contexts (between tokens, in identifiers, after $ : # /, in comments and attributes); plus the repository's grammar files and hand-picked cases; all strings are distinct; non-trivial = non-empty", ALPHABET)));
     out.cov("exhaustive", json!(!was_capped));
     out.cov("scopes", json!([{"name": format!("strings<= {l} symbols"), "size": n, "completed": !was_capped, "exhaustive": !was_capped, "capped_by": if was_capped { json!("wall-clock budget") } else { Value::Null }}]));
     out.cov("histogram", json!(acc.counters));
